@@ -193,7 +193,7 @@ int main(void)
 		did_fail = 0;
 		r_first_err = 0;
 		r_create_failed = 0;
-		alarm(12);
+		alarm(8);
 #ifdef BLK_SHIM
 		{
 			shim_random_chooser_t rc;
